@@ -1,5 +1,5 @@
 SPECIFICATION Spec
 CONSTANT MaxLen = 4
 CHECK_DEADLOCK FALSE
-INVARIANTS TypeOK InvDefaults InvKind InvRoundTrip InvKeyStable InvTarsRoundTrip InvLastWins InvOrderFree InvWeightRange InvKeyDirectVsRegistry InvKeySound
+INVARIANTS TypeOK InvDefaults InvKind InvRoundTrip InvKeyStable InvTarsRoundTrip InvLastWins InvOrderFree InvWeightRange InvKeyDirectVsRegistry InvKeySound InvBindApart
 PROPERTY StepLocal
